@@ -6,6 +6,7 @@ import (
 	stderrors "errors"
 	"fmt"
 	"strings"
+	"sync"
 	"testing"
 	"time"
 
@@ -53,6 +54,9 @@ func (e errSpec) build() error {
 		return stderrors.New("")
 	case 7:
 		return sentinel
+	case 8:
+		// a failure that wraps context.Canceled (e.g. a cancelled downstream call) is an ordinary handler error
+		return fmt.Errorf("downstream: %s: %w", e.Text, context.Canceled)
 	}
 	return nil
 }
@@ -98,7 +102,7 @@ func genCase(t *rapid.T) caseT {
 			c.Msg.Meta[k] = rapid.SampledFrom([]string{"old-value", "", "other-handler"}).Draw(t, "old")
 		}
 	}
-	c.Err.Kind = rapid.SampledFrom([]int{0, 0, 1, 2, 3, 4, 5, 6, 7}).Draw(t, "errKind")
+	c.Err.Kind = rapid.SampledFrom([]int{0, 0, 1, 2, 3, 4, 5, 6, 7, 8}).Draw(t, "errKind")
 	c.Err.Text = rapid.SampledFrom([]string{"boom", "wrap: inner", "", "sentinel failure", "é\n"}).Draw(t, "errText")
 	c.Outputs = rapid.IntRange(0, 2).Draw(t, "outputs")
 	c.Filter.Kind = rapid.IntRange(0, 7).Draw(t, "filter")
@@ -288,6 +292,11 @@ func TestPoisonInRouter(t *testing.T) {
 			t.Fatalf("harness: router did not start")
 		}
 		msg := c.Msg.Msg()
+		if rapid.Bool().Draw(t, "contextFromSameNamedHandlerElsewhere") {
+			// the message arrives with the context of a handler of the same name in another router
+			// (a relay that keeps the context): the poison metadata must still name THIS handler's topic and subscriber
+			msg.SetContext(donorContext(hname))
+		}
 		d = &lib.Delivery{Msg: msg}
 		var ok bool
 		d, ok = sub.Subs()[0].Emit(msg, "m", 0, lib.Live)
@@ -330,4 +339,32 @@ func TestPoisonInRouter(t *testing.T) {
 			lib.Sample(map[string]any{"test": "PoisonInRouter", "handler": hname, "topic": topic, "error": e.Error(), "filter": filterNames[c.Filter.Kind], "publish_fails": c.PubFails, "acked": acked})
 		}
 	})
+}
+
+var donorMu sync.Mutex
+var donors = map[string]context.Context{}
+
+// donorContext returns the context a message has inside a handler called name of another router
+// (subscribe topic "donor-topic", subscriber "donor-subscriber").
+func donorContext(name string) context.Context {
+	donorMu.Lock()
+	defer donorMu.Unlock()
+	if ctx, ok := donors[name]; ok {
+		return ctx
+	}
+	router, _ := message.NewRouter(message.RouterConfig{CloseTimeout: time.Second}, watermill.NopLogger{})
+	sub := lib.NewScriptSub("donor-subscriber")
+	got := make(chan context.Context, 1)
+	router.AddNoPublisherHandler(name, "donor-topic", sub, func(m *message.Message) error {
+		got <- m.Context()
+		return nil
+	})
+	go router.Run(context.Background())
+	<-router.Running()
+	sub.Subs()[0].Emit(message.NewMessage("donor", nil), "", 0, lib.Live)
+	ctx := <-got
+	go router.Close()
+	// detach from the donor router's cancellation, keep the values
+	donors[name] = context.WithoutCancel(ctx)
+	return donors[name]
 }
